@@ -8,6 +8,8 @@ import shim  # noqa: F401
 import trees as T
 
 F64, C128 = "float64", "complex128"
+F32, C64 = "float32", "complex64"
+EPS = {F64: 2.2e-16, C128: 2.2e-16, F32: 1.2e-7, C64: 1.2e-7}
 
 
 # ------------------------------------------------------------------ exact numbers
@@ -173,7 +175,7 @@ def build(t):
     via = t.get("via")
     if k == "Gen":
         d = np.array([complex(*v) for v in t["d"]])
-        d = d if t["dt"] == C128 else d.real
+        d = d if t["dt"] in T.CPLX else d.real
         A = ops.LinearOperator(T.npdt(t["dt"]), (t["n"], t["n"]), matmat=lambda X, d=d: d[:, None] * X)
     elif k in ("Sum", "Prod", "Kron", "KronSum"):
         ms = [build(x) for x in t["ms"]]
@@ -183,7 +185,7 @@ def build(t):
                 A = A @ M
         elif via == "mul":   # Prod [Scal c; M]  built as  c * M
             c = complex(*t["ms"][0]["c"])
-            A = (c if t["ms"][0]["dt"] == C128 else c.real) * ms[1]
+            A = (c if t["ms"][0]["dt"] in T.CPLX else c.real) * ms[1]
         elif via == "kron":
             A = ms[0]
             for M in ms[1:]:
@@ -358,6 +360,20 @@ class GenInv:
 
     def __init__(self, rnd, present=(), kappa=1e3, maxn=6):
         self.r, self.present, self.kappa, self.maxn = rnd, set(present), kappa, maxn
+        self.single = False   # draw float32 / complex64 payloads
+
+    def graded(self, n, posreal=True, cplx=False):
+        """n values over many orders of magnitude, exactly representable in every float format: signed / unit-multiplied powers of 4
+        (their reciprocals and square roots are exact too); the spread is far above 10*eps*max of the dtype"""
+        r = self.r
+        kmax = 11 if self.single else 30
+        ks = [kmax] + [r.choice([0, 0, 1, 2, r.randint(0, kmax)]) for _ in range(n - 1)]
+        r.shuffle(ks)
+        out = []
+        for k in ks:
+            u = [1, 0] if posreal else self.unit(cplx)
+            out.append([u[0] * 4 ** k, u[1] * 4 ** k])
+        return out
 
     def val(self, cplx, lo=-3, hi=3, nz=False):
         r = self.r
@@ -387,7 +403,41 @@ class GenInv:
         return [[[int(round(x.real)), int(round(x.imag))] for x in row] for row in np.asarray(M, dtype=complex)]
 
     def dt(self, cplx):
+        if self.single:
+            return C64 if cplx else F32
         return C128 if cplx else F64
+
+    def graded_tree(self, n, depth, cplx, posreal=False):
+        """entry-wise exact invertible tree: graded Diagonal / ScalarMul, Identity, Permutation leaves under Kronecker, BlockDiag and square Products;
+        its dense form is a generalised permutation matrix"""
+        r = self.r
+        dt = self.dt(cplx)
+        if depth <= 0 or r.random() < 0.3:
+            k = r.choice(["Diag", "Diag", "Diag", "Scal", "Ident"] + ([] if posreal else ["Perm"]))
+            if k == "Diag":
+                return dict(k="Diag", dt=dt, d=self.graded(n, posreal, cplx))
+            if k == "Scal":
+                return dict(k="Scal", dt=dt, c=self.graded(1, posreal, cplx)[0], n=n)
+            if k == "Ident":
+                return dict(k="Ident", dt=dt, n=n)
+            p = list(range(n))
+            r.shuffle(p)
+            return dict(k="Perm", dt=dt, p=p)
+        k = r.choice(["Kron", "BDiag"] + ([] if posreal else ["Prod"])) if n >= 2 else "BDiag"
+        d = depth - 1
+        if k == "Kron":
+            divs = [a for a in range(1, n + 1) if n % a == 0]
+            a = r.choice(divs)
+            return dict(k="Kron", ms=[self.graded_tree(a, d, cplx, posreal), self.graded_tree(n // a, d, cplx, posreal)])
+        if k == "Prod":
+            return dict(k="Prod", ms=[self.graded_tree(n, d, cplx, posreal), self.graded_tree(n, d, cplx, posreal)])
+        parts, left = [], n
+        while left > 0:
+            s_ = r.randint(1, min(left, 3))
+            mu = r.randint(1, max(1, min(2, left // s_)))
+            parts.append((s_, mu))
+            left -= s_ * mu
+        return dict(k="BDiag", ms=[self.graded_tree(s_, d, cplx, posreal) for s_, _ in parts], mu=[mu for _, mu in parts])
 
     def lower(self, n, cplx, posdiag=False):
         L = np.zeros((n, n), dtype=complex)
@@ -600,3 +650,15 @@ def has_scal_below_prod(t, below=False):
 
 def kinds(t):
     return T.kinds_of(t)
+
+
+def gperm_inv(D):
+    """exact inverse of a generalised permutation matrix (one non-zero per row and column), else None"""
+    D = np.asarray(D)
+    nz = D != 0
+    if D.shape[0] != D.shape[1] or not (np.all(nz.sum(0) == 1) and np.all(nz.sum(1) == 1)):
+        return None
+    out = np.zeros_like(D, dtype=complex)
+    for i, j in zip(*np.nonzero(nz)):
+        out[j, i] = 1 / D[i, j]
+    return out
